@@ -409,9 +409,28 @@ def _message_case(case: dict) -> dict:
                 bad = sorted(k for k in set(p1) | set(p2) if p1.get(k) != p2.get(k))
                 failures.append(("C19/serialisers-disagree:" + (bad[0] if bad else "type"), [f"{type(msg).__name__}: queue.push payload {str(p1)[:150]} vs transactional payload {str(p2)[:150]}"]))
         got = []
-        for r in rows:
+        for ri, r in enumerate(rows):
             w.expose(r[0])
             m = q.poll_one()
+            if m is not None and ri == 0:
+                # first holder: scribbles on ITS message object (what a failing handler / the processor's error
+                # path do), never acks, its lock lapses; the SAME queue instance then delivers the row again -
+                # the redelivered message must be what was pushed, not the first holder's object
+                try:
+                    m.set_error_context(RuntimeError("first holder failed"))
+                    for fname, v in list(m.__dict__.items()):
+                        if fname in META or fname.startswith("_"):
+                            continue
+                        if isinstance(v, dict):
+                            v["scribbled_by_first_holder"] = True
+                        elif isinstance(v, int) and not isinstance(v, bool) and fname == "retry_count":
+                            setattr(m, fname, v + 7)
+                except Exception:
+                    pass
+                w.harness_write([("UPDATE queue_messages SET locked_until = NULL WHERE id = ?", (r[0],))])
+                w.expose(r[0])
+                m = q.poll_one()
+                obs["redelivered_after_first_holder_mutation"] += 1
             got.append(m)
             if m is not None:
                 q.ack(m)
